@@ -216,7 +216,10 @@ def net_reordering_model(d, ctx):
     T = d.int(1, 8)
     rng = d.rng()
     mask = rng.uniform(0.05, 1.0, size=(K, F, T))
-    if d.bool() and T >= K:
+    signed = d.int(0, 2) == 0
+    if signed:
+        mask = rng.normal(size=(K, F, T))
+    if not signed and d.bool() and T >= K:
         # structured: classes with (noisy) distinct activity, permuted per bin
         base = scene(d, rng, K, F, max(T, 2 * K)) if K >= 2 else mask
         if K >= 2:
@@ -243,7 +246,7 @@ def net_reordering_model(d, ctx):
         ref_map, tie = oa.greedy_chain(mask, metric)
         ref_feat = None
     ctx.describe(K=K, F=F, T=T, aligner=which, config=cfg)
-    ctx.label(which, f'K={K}')
+    ctx.label(which, f'K={K}', 'signed' if signed else 'non-negative')
     if tie:
         raise Borderline('score tie')
     mapping = np.asarray(ctx.lib(aligner.calculate_mapping, mask.copy()))
